@@ -184,7 +184,7 @@ fn addr_id(a: &s2n_quic_core::inet::SocketAddress) -> u64 {
 const RECORD_CAP: usize = 4000;
 /// max_handshake_duration of both endpoints (the s2n-quic default, set explicitly)
 const HANDSHAKE_MS: u64 = 10_000;
-const PROC_CAP: usize = 6000;
+const PROC_CAP: usize = 16000;
 const XLOG_CAP: usize = 8000;
 
 // frame record kinds
@@ -444,6 +444,19 @@ impl event::Subscriber for Sub {
             (K_TP_STREAMS_UNI, tp.initial_max_streams_uni),
         ] {
             s.record([ep, 1, k, 0, 0, 0, 0, 0, v as i128, -1, -1]);
+        }
+    }
+
+    fn on_path_challenge_updated(&mut self, first: &mut bool, _meta: &events::ConnectionMeta, event: &events::PathChallengeUpdated) {
+        if !*first || self.ep != 1 {
+            return;
+        }
+        if let events::PathChallengeStatus::Validated { .. } = event.path_challenge_status {
+            // marker in the wire log: the server validated the path to this client address
+            let id = (event.path.remote_addr.port() as i128) - 49152;
+            let mut s = self.sh.lock().unwrap();
+            let t = now_us() as i128;
+            s.wire([t, 3, id, id, 0, 0, 0]);
         }
     }
 
@@ -993,6 +1006,8 @@ struct NetCfg {
     inject_kinds: u64, // bit mask over the kinds below
     // faults apply only to these two hosts' traffic when set (raw senders get a clean path)
     fault_hosts: Option<(u64, u64)>,
+    // e2e_amp rebinding scenario: only the first datagram from this socket id is let through
+    only_first_from: Option<u64>,
     // while faults are active, datagrams carrying a MAX_DATA frame are dropped with this permille
     md_drop_pm: u64,
 }
@@ -1006,10 +1021,12 @@ const INJ_HDR_RANDOM: usize = 5; // genuine header bytes, random body
 const INJ_KINDS: usize = 6;
 
 struct Net {
+    first_from_seen: bool,
     cfg: NetCfg,
     rng: Rng,
     sh: Sh,
     history: Vec<Packet>, // genuine datagrams seen (bounded), material for the attacker
+    old: Vec<Packet>,     // every genuine datagram in order (bounded): material for replays of OLD datagrams
     injected: Arc<Mutex<[u64; INJ_KINDS]>>,
 }
 
@@ -1087,7 +1104,7 @@ fn varint(p: &[u8], i: usize) -> Option<(u64, usize)> {
 impl Net {
     fn new(cfg: NetCfg, sh: Sh) -> Self {
         let rng = Rng::new(cfg.seed, 77);
-        Net { cfg, rng, sh, history: vec![], injected: Default::default() }
+        Net { first_from_seen: false, cfg, rng, sh, history: vec![], old: vec![], injected: Default::default() }
     }
 
     fn deliver(&self, buffers: &Buffers, now_ts: s2n_quic_core::time::Timestamp, delay_us: u64, mut pkt: Packet) {
@@ -1170,11 +1187,19 @@ impl Net {
                 p.payload = v;
             }
             INJ_REPLAY => {
-                let same: Vec<usize> = (0..self.history.len()).filter(|i| self.history[*i].path.remote_address == base.path.remote_address).collect();
-                if same.is_empty() {
-                    return None;
+                // half of the replays are OLD datagrams of the same direction: more than 128 packet
+                // numbers (the duplicate window) or more than 1000 behind the newest one
+                let olds: Vec<usize> = (0..self.old.len()).filter(|i| self.old[*i].path.remote_address == base.path.remote_address).collect();
+                let back = if self.rng.below(2) == 0 { 150 + self.rng.below(300) } else { 1100 + self.rng.below(700) } as usize;
+                if self.rng.below(2) == 0 && olds.len() > back {
+                    p = self.old[olds[olds.len() - 1 - back]].clone();
+                } else {
+                    let same: Vec<usize> = (0..self.history.len()).filter(|i| self.history[*i].path.remote_address == base.path.remote_address).collect();
+                    if same.is_empty() {
+                        return None;
+                    }
+                    p = self.history[same[self.rng.below(same.len() as u64) as usize]].clone();
                 }
-                p = self.history[same[self.rng.below(same.len() as u64) as usize]].clone();
             }
             INJ_HDR_RANDOM => {
                 if n < 24 {
@@ -1202,6 +1227,12 @@ impl Net {
                 s.wire(r);
             }
         }
+        if c.only_first_from == Some(src) {
+            if self.first_from_seen {
+                return 0;
+            }
+            self.first_from_seen = true;
+        }
         let faulty_path = match c.fault_hosts {
             None => true,
             Some((a, b)) => (src == a && dst == b) || (src == b && dst == a),
@@ -1219,6 +1250,9 @@ impl Net {
         }
         let mut count = 0;
         // attacker
+        if c.inject_pm > 0 && self.old.len() < 8000 {
+            self.old.push(pkt.clone());
+        }
         if c.inject_pm > 0 && now >= c.inject_from_us && now < c.inject_until_us {
             if self.history.len() < 64 {
                 self.history.push(pkt.clone());
@@ -1352,6 +1386,7 @@ struct AppCfg {
     pause_ms: u64,         // the writers sleep this long between chunks
     rebinds: u64,          // the client's socket moves to a new port this many times ...
     rebind_every_ms: u64,  // ... at this interval
+    server_close_after_ms: u64, // the server application closes this long after accepting (0 = never)
     wmask: u64,            // allowed write modes (bit set), 0 = send(Bytes) only
     rmask: u64,            // allowed read modes (bit set), 0 = receive() / read() chosen by read_size
     send_buf: u64,         // max_send_buffer_size, 0 = default
@@ -1722,6 +1757,15 @@ fn start_server(handle: &Handle, c: &AppCfg, sh: &Sh, tls: (String, String)) -> 
         while let Some(mut conn) = server.accept().await {
             let c = c.clone();
             let sh = sh.clone();
+            if c.server_close_after_ms > 0 {
+                let h = conn.handle();
+                let at = c.server_close_after_ms;
+                spawn(async move {
+                    // counted from the moment the server application accepted the connection
+                    time::delay(Duration::from_millis(at)).await;
+                    h.close(3u32.into());
+                });
+            }
             spawn(async move {
                 // this task owns the connection handle: the connection stays open while it waits
                 loop {
@@ -1760,6 +1804,13 @@ fn start_client(handle: &Handle, c: &AppCfg, sh: &Sh, addr: std::net::SocketAddr
         sh_sock.lock().unwrap().ids[0] = (local.port() as u64).wrapping_sub(49152);
         if rebinds > 0 {
             spawn(async move {
+                // never during the handshake: wait until the client's connect() has returned
+                for _ in 0..4000 {
+                    if sh_sock.lock().unwrap().connect_ok == 1 {
+                        break;
+                    }
+                    time::delay(Duration::from_millis(5)).await;
+                }
                 for _ in 0..rebinds {
                     time::delay(Duration::from_millis(rebind_every)).await;
                     // a NAT rebinding: same host, new port (ports above the generated range)
@@ -2058,11 +2109,12 @@ fn e2e_stream(input: &[V]) -> Vec<V> {
 // ------------------------------------------------------------------------------------------
 //
 // case: [seed, drop_pm, dup_pm, jitter_ms, delay_ms, chain_extra, n_raw, raw_kinds_mask, raw_per_sender,
-//        fault_until_ms, bytes, corrupt_pm]
+//        fault_until_ms, bytes, corrupt_pm, rebind_at_ms (0 = no rebinding), server_close_ms, pause_ms]
 // output: [1, server_id, client_id, n_raw, server_first_handshake_rx_us (-1 = never), connect_ok,
-//          watchdog_hit, wire_capped, n_wire, wire x 7: (t_us, kind, src, dst, len, first byte, class)]
+//          watchdog_hit, wire_capped, n_wire, client_id_after_rebinding (-1 = none), wire x 7: (t_us, kind, src, dst, len, first byte, class)]
 //   kind 0 = put on the wire by src, 1 = delivered to dst, 2 = marker: the server processed the
-//   first client Handshake packet (address validated); class: see classify()
+//   first client Handshake packet (address validated); 3 = marker: the server validated the path
+//   to the address in src; class: see classify()
 
 fn raw_datagram(rng: &mut Rng, kind: u64) -> Vec<u8> {
     let pick = |rng: &mut Rng, v: &[usize]| v[rng.below(v.len() as u64) as usize];
@@ -2137,6 +2189,11 @@ fn e2e_amp(input: &[V]) -> Vec<V> {
     let fault_until_ms = c.u64();
     let bytes = c.u64().min(100_000);
     let corrupt_pm = c.u64().min(1000);
+    // rebinding scenario: the client's socket moves to a new port at this time; only its first
+    // datagram from there gets through (silence afterwards); the server application closes later
+    let rebind_at_ms = c.u64().min(60_000);
+    let server_close_ms = c.u64().min(120_000);
+    let pause_ms = c.u64().min(5_000);
 
     let sh = new_shared(seed);
     sh.lock().unwrap().wire_on = true;
@@ -2155,10 +2212,15 @@ fn e2e_amp(input: &[V]) -> Vec<V> {
         close_at_end: false,
         full_records: false,
         finish_mode: 0,
+        rebinds: (rebind_at_ms > 0) as u64,
+        rebind_every_ms: rebind_at_ms.max(1),
+        server_close_after_ms: if rebind_at_ms > 0 { server_close_ms } else { 0 },
+        pause_ms,
         ..Default::default()
     };
     // the server is the first socket (id 0), then the raw senders, then the client
     let client_id = 1 + n_raw;
+    let client_id2: i128 = if rebind_at_ms > 0 { client_id as i128 + 1000 } else { -1 };
     let net = NetCfg {
         seed,
         drop_pm,
@@ -2169,6 +2231,7 @@ fn e2e_amp(input: &[V]) -> Vec<V> {
         max_udp: 65535,
         fault_until_us: fault_until_ms * 1000,
         fault_hosts: Some((0, client_id)),
+        only_first_from: if rebind_at_ms > 0 { Some(client_id + 1000) } else { None },
         ..Default::default()
     };
     let raw = move |handle: &Handle, addr: std::net::SocketAddr| -> io::Result<()> {
@@ -2207,6 +2270,7 @@ fn e2e_amp(input: &[V]) -> Vec<V> {
         s.watchdog_hit as V,
         s.wire_capped as V,
         s.wire.len() as V,
+        client_id2,
     ];
     for r in &s.wire {
         out.extend_from_slice(r);
@@ -2234,7 +2298,7 @@ fn e2e_inject(input: &[V]) -> Vec<V> {
     let from_ms = c.u64();
     let len_ms = c.u64();
     let n_bidi = c.u64().clamp(1, 16);
-    let bytes = c.u64().min(400_000);
+    let bytes = c.u64().min(6_000_000);
     let delay_ms = c.u64().clamp(1, 1000);
     let drop_pm = c.u64().min(300);
     let jitter_ms = c.u64().min(500);
@@ -2248,8 +2312,10 @@ fn e2e_inject(input: &[V]) -> Vec<V> {
         n_bidi,
         n_uni,
         bytes,
-        stream_window: 100_000,
-        conn_window: 400_000,
+        // a long upload gets windows that allow hundreds of packets in flight: packet numbers are
+        // then encoded in two bytes and old replays still decode to their own number
+        stream_window: if bytes > 1_000_000 { 4_000_000 } else { 100_000 },
+        conn_window: if bytes > 1_000_000 { 8_000_000 } else { 400_000 },
         max_streams: 100,
         chunk,
         read_size,
